@@ -13,7 +13,7 @@ exec(open('/verif/check').read().split("def main():")[0])
 os.makedirs(WORK, exist_ok=True)
 lock=open(os.path.join(WORK,"lock"),"w"); fcntl.flock(lock,fcntl.LOCK_EX)
 ok,out=build_harness(prop); assert ok, out
-run_gen(); make_all(3000)
+run_gen(); make_all(1800, prop)
 ok,out=build_driver(prop)
 if not ok: print(out[-3000:]); sys.exit(1)
 PY
